@@ -5,6 +5,9 @@ Helper lemmas for C18 (path containment).
 namespace PB.Paths
 open PB
 
+/-- ASCII string literal as a path (for the examples). -/
+def B (s : String) : Path := s.toList.map (fun c => UInt8.ofNat c.toNat)
+
 /-! ### splitSep / joinSep -/
 
 theorem splitSep_ne_nil (p : Path) : splitSep p ≠ [] := by
@@ -236,6 +239,48 @@ theorem resolve_prefix_of_hasPrefix {ns : List Path} (h : ∀ x ∈ ns, Normal x
   rw [this, ← hf, ← hsplit, List.filter_append]
   exact List.prefix_append _ _
 
+/-- Strict version: a clean absolute path that starts with `r ++ "/"` (r not empty) goes at least one level below `r`. -/
+theorem resolve_strict_of_hasPrefix {ns : List Path} (h : ∀ x ∈ ns, Normal x) {r : Path} (hr : r ≠ [])
+    (hp : hasPrefix (47 :: joinSep ns) (r ++ [47]) = true) : ∃ x xs, ns = resolve r ++ x :: xs := by
+  have hp' : (r ++ [47]) <+: (47 :: joinSep ns) := by simpa [hasPrefix] using hp
+  obtain ⟨rest, hrest⟩ := hp'
+  have hsplit : splitSep r ++ splitSep rest = splitSep (47 :: joinSep ns) := by
+    rw [← hrest]
+    simpa using (splitSep_append_sep r rest).symm
+  obtain ⟨hb, hf⟩ := splitSep_cleanAbs h
+  have hbr : ∀ s ∈ splitSep r, Benign s := fun s hs => hb s (by rw [← hsplit]; simp [hs])
+  have hres : resolve r = (splitSep r).filter nonE := by
+    simp [resolve, resolveFrom, foldl_stepSeg_benign hbr]
+  have hns : ns = resolve r ++ (splitSep rest).filter nonE := by
+    rw [hres, ← List.filter_append, hsplit, hf]
+  cases ns with
+  | nil =>
+    -- "/" = r ++ "/" ++ rest forces r = []
+    exfalso
+    simp [joinSep] at hrest
+    cases r with
+    | nil => exact hr rfl
+    | cons c cs => simp at hrest
+  | cons n ns' =>
+    have hs : splitSep (47 :: joinSep (n :: ns')) = [] :: (n :: ns') := by
+      have := splitSep_joinSep (ss := n :: ns') (by simp) (fun x hx => normal_not_mem (h x hx))
+      simp [splitSep, this]
+    rw [hs] at hsplit
+    -- splitSep r is not empty, so every element of splitSep rest is one of the normal names
+    have hmem : ∀ s ∈ splitSep rest, s ∈ n :: ns' := by
+      cases hsr : splitSep r with
+      | nil => exact absurd hsr (splitSep_ne_nil r)
+      | cons a as =>
+        rw [hsr] at hsplit
+        simp at hsplit
+        intro s hs'
+        rw [← hsplit.2]; simp [hs']
+    have hall : (splitSep rest).filter nonE = splitSep rest :=
+      List.filter_eq_self.mpr (fun s hs' => nonE_of_ne (h s (hmem s hs')).1)
+    cases hsr : splitSep rest with
+    | nil => exact absurd hsr (splitSep_ne_nil rest)
+    | cons x xs => exact ⟨x, xs, by rw [hns, hall, hsr]⟩
+
 theorem resolve_append_slash (r : Path) : resolve (r ++ [47]) = resolve r := by
   have := resolve_append_sep r []
   simpa [resolveFrom, splitSep, stepSeg_nil] using this
@@ -249,6 +294,14 @@ theorem inside_of_clean_hasPrefix {p root : Path} (hp : isAbs p = true)
   rw [resolve_clean hp]
   rw [clean_abs hp] at h
   exact resolve_prefix_of_hasPrefix (resolve_allNormal p) h
+
+/-- Strict containment from the scope check with separator. -/
+theorem strictlyInside_of_clean_hasPrefix {p root : Path} (hp : isAbs p = true) (hr : root ≠ [])
+    (h : hasPrefix (clean p) (root ++ [47]) = true) : StrictlyInside root (clean p) := by
+  refine ⟨isAbs_clean hp, ?_⟩
+  rw [resolve_clean hp]
+  rw [clean_abs hp] at h
+  exact resolve_strict_of_hasPrefix (resolve_allNormal p) hr h
 
 /-! ### `filepath.Join` below an absolute directory -/
 
@@ -274,6 +327,99 @@ theorem inside_join2_of_hasPrefix {a root : Path} (h : isAbs a = true) (b : Path
     (hp : hasPrefix (join2 a b) (root ++ [47]) = true) : Inside root (join2 a b) := by
   rw [join2_abs h] at hp ⊢
   exact inside_of_clean_hasPrefix (isAbs_append h _) hp
+
+/-! ### `filepath.Dir` of a clean absolute path -/
+
+theorem joinSep_concat {init : List Path} (hne : init ≠ []) (l : Path) :
+    joinSep (init ++ [l]) = joinSep init ++ 47 :: l := by
+  induction init with
+  | nil => exact absurd rfl hne
+  | cons a rest ih =>
+    cases rest with
+    | nil => simp [joinSep]
+    | cons b bs =>
+      have := ih (by simp)
+      simp only [List.cons_append] at this ⊢
+      simp [joinSep, this]
+
+theorem dropWhile_all {α : Type} (p : α → Bool) (l : List α) (h : ∀ x ∈ l, p x = true) : l.dropWhile p = [] := by
+  induction l with
+  | nil => rfl
+  | cons a rest ih =>
+    simp [List.dropWhile, h a (by simp), ih (fun x hx => h x (by simp [hx]))]
+
+theorem eq_nil_or_snoc {α : Type} (l : List α) : l = [] ∨ ∃ init x, l = init ++ [x] := by
+  rcases List.eq_nil_or_concat l with h | ⟨init, x, h⟩
+  · exact Or.inl h
+  · exact Or.inr ⟨init, x, by simpa using h⟩
+
+theorem dir_root : isAbs (clean [47]) = true ∧ resolve (clean [47]) = [] := by decide
+
+theorem throughLastSep_append (A l : Path) (hl : (47 : UInt8) ∉ l) : throughLastSep (A ++ 47 :: l) = A ++ [47] := by
+  unfold throughLastSep
+  have h1 : (A ++ 47 :: l).reverse = l.reverse ++ (47 :: A.reverse) := by simp
+  have h2 : List.dropWhile (fun x => decide (x ≠ (47 : UInt8))) l.reverse = [] := by
+    apply dropWhile_all
+    intro x hx
+    have : x ≠ 47 := by intro e; subst e; exact hl (List.mem_reverse.mp hx)
+    simp [this]
+  rw [h1, List.dropWhile_append, h2]
+  simp
+
+/-- `Dir` of a clean absolute path is absolute and leads to the parent directory. -/
+theorem dirOf_cleanAbs {ns : List Path} (h : ∀ x ∈ ns, Normal x) :
+    isAbs (dirOf (47 :: joinSep ns)) = true ∧ resolve (dirOf (47 :: joinSep ns)) = ns.dropLast := by
+  rcases eq_nil_or_snoc ns with hnil | ⟨init, l, hcat⟩
+  · subst hnil
+    have : throughLastSep [47] = [47] := by simp [throughLastSep]
+    simpa [dirOf, joinSep, this] using dir_root
+  · subst hcat
+    have hl : (47 : UInt8) ∉ l := normal_not_mem (h l (by simp))
+    have hinit : ∀ x ∈ init, Normal x := fun x hx => h x (by simp [hx])
+    by_cases hi : init = []
+    · subst hi
+      have : throughLastSep (47 :: l) = [47] := by simpa using throughLastSep_append [] l hl
+      simpa [dirOf, joinSep, this] using dir_root
+    · have hj : (47 : UInt8) :: joinSep (init ++ [l]) = (47 :: joinSep init) ++ 47 :: l := by
+        simp [joinSep_concat hi]
+      have ht := throughLastSep_append (47 :: joinSep init) l hl
+      rw [← hj] at ht
+      have habs : isAbs (47 :: joinSep init ++ [47]) = true := rfl
+      unfold dirOf
+      rw [ht]
+      refine ⟨isAbs_clean habs, ?_⟩
+      rw [resolve_clean habs, resolve_append_slash, resolve_cleanAbs hinit]
+      simp
+
+/-! ### The scope check does not over-reject: names that stay strictly inside pass it -/
+
+theorem joinSep_append {as : List Path} (hne : as ≠ []) (b : Path) (bs : List Path) :
+    joinSep (as ++ b :: bs) = joinSep as ++ 47 :: joinSep (b :: bs) := by
+  induction as with
+  | nil => exact absurd rfl hne
+  | cons a rest ih =>
+    cases rest with
+    | nil => simp [joinSep]
+    | cons c cs =>
+      have := ih (by simp)
+      simp only [List.cons_append] at this ⊢
+      simp [joinSep, this]
+
+theorem hasPrefix_join2_of_strict {base key : Path} (hb : isAbs base = true) (hc : clean base = base)
+    (hroot : base ≠ [47]) {x : Path} {xs : List Path}
+    (hin : resolveFrom (resolve base) key = resolve base ++ x :: xs) :
+    hasPrefix (join2 base key) (base ++ [47]) = true := by
+  have hbase : base = 47 :: joinSep (resolve base) := by rw [← clean_abs hb, hc]
+  have hne : resolve base ≠ [] := by
+    intro e; rw [e] at hbase; exact hroot (by simpa [joinSep] using hbase)
+  have hj : join2 base key = 47 :: joinSep (resolve base ++ x :: xs) := by
+    rw [join2_abs hb, clean_abs (isAbs_append hb _), resolve_append_sep, hin]
+  rw [hj, joinSep_append hne]
+  have : base ++ [47] <+: 47 :: (joinSep (resolve base) ++ 47 :: joinSep (x :: xs)) := by
+    refine ⟨joinSep (x :: xs), ?_⟩
+    conv => lhs; rw [hbase]
+    simp
+  simpa [hasPrefix] using this
 
 /-! ### `Clean` of a relative path stays relative -/
 
